@@ -4,7 +4,7 @@
     per definition kind ("parse_X consumes exactly the printed definition and leaves the parser
     ready for the next line") -> induction over the list of definitions. *)
 From Coq Require Import ZArith List Bool Lia.
-From CanVerif Require Import Dbc.Ast Dbc.Scanner Dbc.DecFloat Dbc.Parser Dbc.ScannerInv Dbc.ScanLemmas Dbc.Printer.
+From CanVerif Require Import Dbc.Ast Dbc.Scanner Dbc.DecFloat Dbc.Parser Dbc.ScannerInv Dbc.ScanLemmas Dbc.Printer Dbc.IntConv.
 Import ListNotations.
 Open Scope Z_scope.
 
@@ -1326,6 +1326,37 @@ Section RT.
     rewrite sc_scan_direct; cbn [s_ch s_ws mkS]; [|unfold ascii, NOCHAR in *; lia|apply ws_printable; assumption].
     apply scan_body_literal; assumption.
   Qed.
+
+  (** the same two with the token type spelled out: scanner.Int exactly for decimal integers *)
+  Lemma scan_ws_lit_typ : forall w d0 t0 fp ex c r last pos l k ll ws,
+    is_ws ws w = true -> ws_ok ws -> (length (lit_tail t0 fp ex) + 5 < F)%nat -> 0 <= k ->
+    is_decimal d0 = true -> Forall (fun a => is_decimal a = true) t0 -> (d0 <> 48 \/ t0 = []) -> wf_frac fp -> wf_exp ex -> numterm c ->
+      sc_scan (mkS ((d0 :: lit_tail t0 fp ex) ++ c :: r) last pos l k ll w ws)
+      = SOk ({| t_typ := lit_typ fp ex; t_pos := {| p_line := l; p_column := k + 1; p_offset := pos |}; t_txt := d0 :: lit_tail t0 fp ex |},
+             stepS c r (pos + 1 + blen (lit_tail t0 fp ex)) l (k + 1 + blen (lit_tail t0 fp ex)) ll c ws).
+  Proof.
+    intros w d0 t0 fp ex c r last pos l k ll ws Hw Hws HF Hk Hd Ht Hz Hfp Hex Hc. destruct (decimal_ge d0 Hd) as (H33 & Ha0 & H10).
+    cbn [app]. rewrite sc_scan_skip1; try assumption; [|lia|apply ws_printable; assumption].
+    rewrite stepS_plain by assumption.
+    rewrite (scan_body_literal_typ il id F d0 t0 fp ex c r (pos + 1) l (k + 1) ll w ws ltac:(lia) ltac:(lia) Hd Ht Hz Hfp Hex Hc).
+    f_equal. f_equal. apply tok_eq. lia.
+  Qed.
+
+  Lemma scan_direct_lit_typ : forall d0 t0 fp ex c r pos l k ll ws,
+    ws_ok ws -> (length (lit_tail t0 fp ex) + 4 < F)%nat -> 0 < k ->
+    is_decimal d0 = true -> Forall (fun a => is_decimal a = true) t0 -> (d0 <> 48 \/ t0 = []) -> wf_frac fp -> wf_exp ex -> numterm c ->
+      sc_scan (mkS (lit_tail t0 fp ex ++ c :: r) [d0] pos l k ll d0 ws)
+      = SOk ({| t_typ := lit_typ fp ex; t_pos := {| p_line := l; p_column := k; p_offset := pos - 1 |}; t_txt := d0 :: lit_tail t0 fp ex |},
+             stepS c r (pos + blen (lit_tail t0 fp ex)) l (k + blen (lit_tail t0 fp ex)) ll c ws).
+  Proof.
+    intros d0 t0 fp ex c r pos l k ll ws Hws HF Hk Hd Ht Hz Hfp Hex Hc. destruct (decimal_ge d0 Hd) as (H33 & Ha0 & H10).
+    rewrite sc_scan_direct; cbn [s_ch s_ws mkS]; [|unfold ascii, NOCHAR in *; lia|apply ws_printable; assumption].
+    apply scan_body_literal_typ; assumption.
+  Qed.
+
+  (** the conversion Parser.int applies to the token of a printed number is its denotation [num_int] *)
+  Lemma lit_typ_is_int : forall n, (lit_typ (n_frac n) (n_exp n) =? TInt) = is_int_lit n.
+  Proof. intros n. unfold lit_typ, is_int_lit. destruct (n_frac n), (n_exp n); reflexivity. Qed.
 
   (** p.float() on a pending space followed by a (signed) number literal and [c] *)
   Lemma p_float_ws : forall n c r last pos l k ll,
@@ -2687,26 +2718,26 @@ Section RT.
     = POk (num_int n) (PS (stepS c r (pos + blen (print_num n)) l (k + blen (print_num n)) ll c ws_default) None).
   Proof.
     intros n c r last pos l k ll Hn Hc HF Hk.
+    pose proof (int_of_token_num n Hn) as Hconv. rewrite <- (lit_typ_is_int n) in Hconv.
     destruct (num_shape n Hn) as (d0 & t0 & El & Hd & Ht & Hz & Hfp & Hex & Hpf).
-    unfold print_num, num_int in *. rewrite El in *.
-    destruct (parse_float (d0 :: lit_tail t0 (n_frac n) (n_exp n))) as [bits|] eqn:Epf; [|contradiction Hpf; reflexivity].
+    pose proof (lit_typ_cases (n_frac n) (n_exp n)) as Hty.
+    unfold print_num in *. rewrite El in *.
     destruct (decimal_ge d0 Hd) as (H33 & Ha0 & H10).
     unfold p_int, optional_minus, bind. rewrite peek_token_scan. destruct (n_neg n); cbn [app]; cbn [app length] in HF.
     - rewrite (scan_ws_punct 32) by side.
       cbn [t_typ]. change (45 =? c_minus) with true. cbv beta iota.
       erewrite p_token_look by reflexivity. unfold ret at 1. rewrite next_token_scan.
       rewrite stepS_plain by assumption.
-      destruct (scan_direct_lit d0 t0 (n_frac n) (n_exp n) c r (pos + 1 + 1) l (k + 1 + 1) ll ws_default ws_def ltac:(lia) ltac:(lia)
-                  Hd Ht Hz Hfp Hex Hc) as (typ & Hty & E).
-      rewrite E. cbn [t_typ t_txt]. rewrite (num_typ_ok typ Hty). rewrite Epf. unfold ret.
+      rewrite (scan_direct_lit_typ d0 t0 (n_frac n) (n_exp n) c r (pos + 1 + 1) l (k + 1 + 1) ll ws_default ws_def ltac:(lia) ltac:(lia)
+                  Hd Ht Hz Hfp Hex Hc).
+      cbn [t_typ t_txt]. rewrite (num_typ_ok _ Hty). rewrite Hconv. unfold ret.
       f_equal. f_equal. apply stepS_eq; rewrite !blen_cons; lia.
-    - destruct (scan_ws_lit 32 d0 t0 (n_frac n) (n_exp n) c r last pos l k ll ws_default ws32 ws_def ltac:(lia) Hk Hd Ht Hz Hfp Hex Hc)
-        as (typ & Hty & E).
-      change (d0 :: lit_tail t0 (n_frac n) (n_exp n) ++ c :: r) with ((d0 :: lit_tail t0 (n_frac n) (n_exp n)) ++ c :: r).
-      rewrite E. cbn [t_typ].
-      assert (Enm : (typ =? c_minus) = false) by (destruct Hty as [-> | ->]; reflexivity). rewrite Enm.
+    - change (d0 :: lit_tail t0 (n_frac n) (n_exp n) ++ c :: r) with ((d0 :: lit_tail t0 (n_frac n) (n_exp n)) ++ c :: r).
+      rewrite (scan_ws_lit_typ 32 d0 t0 (n_frac n) (n_exp n) c r last pos l k ll ws_default ws32 ws_def ltac:(lia) Hk Hd Ht Hz Hfp Hex Hc).
+      cbn [t_typ].
+      assert (Enm : (lit_typ (n_frac n) (n_exp n) =? c_minus) = false) by (destruct Hty as [-> | ->]; reflexivity). rewrite Enm.
       cbv beta iota. unfold ret at 1. rewrite next_token_look.
-      cbn [t_typ t_txt]. rewrite (num_typ_ok typ Hty). rewrite Epf. unfold ret.
+      cbn [t_typ t_txt]. rewrite (num_typ_ok _ Hty). rewrite Hconv. unfold ret.
       f_equal. f_equal. apply stepS_eq; rewrite !blen_cons; lia.
   Qed.
 
